@@ -20,25 +20,28 @@ set_option linter.unusedSimpArgs false
 /-- **String arguments round-trip**, for every size kind (`len=` with or without `nulless`, `bs=`
 to the end of the blob, length-prefixed), every xor mask (constant or accelerating), with or
 without `furibug`, for every pending furigana state `st` and whatever follows in the blob
-(`tl`): the decoder returns exactly the text, without warning, and leaves `tl` unread. -/
+(`tl`): the decoder returns exactly the text, without warning, and leaves `tl` unread.
+`hattr` is what the signature parser enforces (`bs ≠ 0`, no `furibug` on a `nulless` string). -/
 theorem string_arg_roundtrip (sj : Sjis) (st : EncState) (size : StrSize) (mask : ByteMask)
     (furibug : Bool) (s : List Char) (b tl out : Bytes) (st2 : EncState)
     (henc : sj.enc s = some b) (hinv : sj.dec b = some s)
+    (hattr : Enc.strAttrsOk (.str size mask furibug) = true)
     (hok : strLayoutOk st size furibug b = true)
     (he : encodeText sj st size mask furibug s = .ok (out, st2))
     (htl : ∀ bs, size = .toBlobEnd bs → tl = []) :
     decodeText sj size mask furibug (out ++ tl) = .ok (s, [], tl) := by
   simp only [encodeText, henc] at he
-  have := decodeStr_encodeStr st size mask furibug b tl out st2 hok he htl
+  have := decodeStr_encodeStr st size mask furibug b tl out st2 hattr hok he htl
   simp [decodeText, this, hinv]
 
 /-- and the encoder accepts every such text -/
 theorem string_arg_accepted (sj : Sjis) (st : EncState) (size : StrSize) (mask : ByteMask)
     (furibug : Bool) (s : List Char) (b : Bytes)
-    (henc : sj.enc s = some b) (hok : strLayoutOk st size furibug b = true) :
+    (henc : sj.enc s = some b) (hattr : Enc.strAttrsOk (.str size mask furibug) = true)
+    (hok : strLayoutOk st size furibug b = true) :
     ∃ r, encodeText sj st size mask furibug s = .ok r := by
   simp only [encodeText, henc]
-  exact encodeStr_ok st size mask furibug b hok
+  exact encodeStr_ok st size mask furibug b hattr hok
 
 /-- a toy encoder (ASCII only) showing the hypotheses are satisfiable for each size kind, with
 the TH09+ accelerating mask, a pending furigana line and the furigana quirk switched on -/
@@ -50,7 +53,9 @@ example : asciiSjis.enc ['|', 'a'] = some [0x7C, 0x61] ∧ asciiSjis.dec [0x7C, 
     ∧ strLayoutOk (some [1, 2, 3, 4]) (.toBlobEnd 4) true [0x7C, 0x61] = true
     ∧ strLayoutOk (some [1, 2, 3, 4]) (.pascal 4) true [0x7C, 0x61] = true
     ∧ strLayoutOk (some [1, 2, 3, 4]) (.fixed 8 false) true [0x7C, 0x61] = true
-    ∧ strLayoutOk none (.fixed 2 true) true [0x7C, 0x61] = true := by decide
+    ∧ strLayoutOk none (.fixed 2 true) false [0x7C, 0x61] = true
+    ∧ Enc.strAttrsOk (.str (.fixed 2 true) ⟨0x77, 7, 16⟩ false) = true
+    ∧ Enc.strAttrsOk (.str (.pascal 4) ⟨0x77, 7, 16⟩ true) = true := by decide
 
 /-! ## fixed-size metadata strings -/
 
@@ -188,7 +193,7 @@ theorem cstring_block_roundtrip_partial :
   decide
 
 /-- block-padded strings never hit `bs = 0` in the metadata writers (16 is a constant there),
-but a signature may say `bs=0`: see `C12.zero_block_size_panics` -/
+and a signature cannot say `bs=0`: see `C12.validAbi_rejects_zero_block` -/
 example : writeCString 16 [0x61] = .ok (0x61 :: zeros 15) := by decide
 
 end TruthModel.C15
